@@ -53,6 +53,10 @@ CLAIMS['C20'] = ('Bounded symbolic model checking of the real ZemaxFileReader + 
     '(bound through a shadowed float() in the reader): surface count, radii = 1/CURV or infinity, vertex = running sums of DISZ, conic, PARM n -> coefficient n-1, media (model glass n_d/V_d, catalogue glass, air), stop, '
     'aperture, field type and de-duplicated sorted values, wavelengths and primary, and the paraxial focal length of the written numbers; MODE != SEQ rejected. All SMT queries decided unsat.',
     'files of 1-3 (thorough 6) real surfaces from one generator template (record order as Zemax writes it); mirrors / coordinate breaks not covered; catalogue lookup concrete (one glass)')
+CLAIMS['C10'] = ('Bounded symbolic model checking of the real Zernike classes: for each of the 3 x 120 listed positions the solver inverts the published index rule over symbolic integers (n, m) (no other valid pair maps to that position; QF_NIA), '
+    'the radial polynomial equals the three-term-recurrence definition for ALL r (polynomial identity, n <= 12/14), normalisation N^2 (1+[m=0]) = 2n+2 over symbolic integers, poly() linear in symbolic coefficient vectors, '
+    'ZernikeFit._objective zero at the generating coefficients / affine, fits do not disturb each other.',
+    'that scipy least_squares returns the minimiser is assumed (stubbed); orthogonality of the radial polynomials is the textbook fact the normalisation check relies on; azimuthal sign convention sin(m phi), m<0, taken from the library')
 NOT_YET = 'check not built yet in this round (work in progress; see DESIGN.md section 6 for the plan)'
 
 props = [json.loads(l) for l in open(os.path.join(ROOT, 'properties.jsonl'))]
